@@ -129,27 +129,32 @@ Print Assumptions C16_route_unique.
    under the same name and appends the new one - and an incoming identifier goes to the first entry of the
    resulting table whose match function (matchProtocolIDWithSemver with the entry's own name and version) accepts.
    With pairwise distinct names, as the node's own protocols have: the identifier reaches the k-th registered
-   handler exactly when that handler's descriptor matches, ... *)
+   handler exactly when that handler's descriptor matches, ...
+   Scope: [specified ds incoming] - no registered descriptor is judged by the version library's lenient dialect
+   (verdict Unspec) on this identifier.  The premise is needed for the implementation, not for the model: [route] reads
+   Unspec as "not matched", while the library accepts e.g. "v1.0.0", so Go does route "/a/v1.0.0" to a handler a 1.0.0
+   (Semver_proofs.lenient_route_none).  The checker applies the same restriction ([route_expect]). *)
 Theorem C16_route : forall ds incoming k d,
-  NoDup (map fst ds) ->
+  NoDup (map fst ds) -> specified ds incoming ->
   (route ds incoming = Some (k, d) <->
    1 <= k /\ nth_error ds (N.to_nat (k - 1)) = Some d /\ match_id incoming (fst d) (snd d) = Match).
-Proof. exact route_spec_nodup. Qed.
+Proof. exact route_specified_nodup. Qed.
 Print Assumptions C16_route.
 
-(* ... and reaches no handler exactly when no registered descriptor matches. *)
+(* ... and reaches no handler exactly when every registered descriptor refuses it. *)
 Theorem C16_route_none : forall ds incoming,
-  NoDup (map fst ds) ->
-  (route ds incoming = None <-> forall d, In d ds -> match_id incoming (fst d) (snd d) <> Match).
-Proof. exact route_none_nodup. Qed.
+  NoDup (map fst ds) -> specified ds incoming ->
+  (route ds incoming = None <-> forall d, In d ds -> match_id incoming (fst d) (snd d) = NoMatch).
+Proof. exact route_none_specified_nodup. Qed.
 Print Assumptions C16_route_none.
 
 (* Without the distinct-names premise: the handler reached is the LAST registration of its name whose descriptor
    matches (registering a name again replaces the earlier handler, whatever its version was). *)
 Theorem C16_route_general : forall ds incoming h,
-  route ds incoming = Some h <->
-  last_of_name (number 1 ds) h /\ match_id incoming (fst (snd h)) (snd (snd h)) = Match.
-Proof. exact route_spec. Qed.
+  specified ds incoming ->
+  (route ds incoming = Some h <->
+   last_of_name (number 1 ds) h /\ match_id incoming (fst (snd h)) (snd (snd h)) = Match).
+Proof. exact route_specified. Qed.
 Print Assumptions C16_route_general.
 
 (* "No identifier crashes the node", for the repository's own code: [match_id_gen nv] is matchProtocolIDWithSemver
